@@ -234,9 +234,13 @@ CmdVerdict(cmd, orig, mode) ==
 (* family: adversarial strings in the four slots *)
 Alphabet == {97, cSQ, cDQ, cBS, cDOLLAR, cBT, cSP, cNL, cAT, cSEMI, cCOLON, cAMP, cPCT}
 Strs(n) == UNION {[1..k -> Alphabet] : k \in 0..n}
+(* histories that put cookies on the wire which are not the case's own: the string is the case's own cookie value, and the request   *)
+(* also carries a cookie an earlier response set on the shared session / a call-level cookies= / a configured Cookie header.  The      *)
+(* command (direct, or from the Python API's failure message) must reproduce the Cookie header of the request that was sent.            *)
+CookieHistorySlots == {"cookie-session", "cookie-call", "cookie-header", "api-cookie-session"}
 (* the same strings reaching the command through other front doors: the "Reproduce with" text of the Python API's failure message     *)
 (* (Case.validate_response), a base URL with a base path and a trailing slash, a GraphQL case, a case of an in-process WSGI app        *)
-FrontSlots == {"api-header", "api-body", "base-slash", "graphql", "wsgi"}
+FrontSlots == {"api-header", "api-body", "base-slash", "graphql", "wsgi"} \cup CookieHistorySlots
 BaseSlots == {"header", "query", "path", "body"}                \* adversarial string in one place
 Slots == BaseSlots \cup {"cookie", "json", "form", "auth", "multipart"} \cup FrontSlots      \* cookie value, JSON string body, urlencoded form field, Authorization value, text field of a multipart/form-data body
 (* payloads that are empty or minimal for their media type, for every method that carries a body: the Content-Type header   *)
@@ -246,13 +250,13 @@ BodyMethods == {"POST", "PUT", "PATCH"}
 (* the command the ENGINE attaches to a failure (code sample built from the recorder), for a failure on the case's own request   *)
 (* and for failures on requests a check derived from it (ignored_auth probes: credential header removed / overridden); the      *)
 (* string is the value of a configured non-credential header that every one of these requests carries                            *)
-EngineSlots == {"engine-own", "engine-removed", "engine-overridden"}
+EngineSlots == {"engine-own", "engine-removed", "engine-overridden", "engine-cookie"}    \* engine-cookie: configured Cookie header + generated cookie parameter
 Elements(n, lm) == {[slot |-> sl, s |-> s, m |-> "-"] : sl \in Slots, s \in Strs(n)}
                      \cup {[slot |-> sl, s |-> s, m |-> "-"] : sl \in {"header", "body"}, s \in [1..lm -> Alphabet]}
                      \cup {[slot |-> sl, s |-> <<>>, m |-> mm] : sl \in EmptySlots, mm \in BodyMethods}
                      \cup {[slot |-> sl, s |-> s, m |-> "-"] : sl \in EngineSlots, s \in Strs(1)}
 (* field values: no CR / LF, no leading or trailing blanks (RFC 7230 3.2); path values are non-empty *)
-InFragment(e) == CASE e.slot \in {"header", "cookie", "auth", "api-header"} \cup EngineSlots -> /\ \A i \in 1..Len(e.s) : e.s[i] # cNL
+InFragment(e) == CASE e.slot \in {"header", "cookie", "auth", "api-header"} \cup EngineSlots \cup CookieHistorySlots -> /\ \A i \in 1..Len(e.s) : e.s[i] # cNL
                                                                /\ (e.s = <<>> \/ (~IsSpace(e.s[1]) /\ ~IsSpace(e.s[Len(e.s)])))
                    [] e.slot \in {"path", "base-slash"} -> e.s # <<>>
                    [] OTHER -> TRUE
